@@ -175,6 +175,11 @@ class WrongTile(Undecided):
     """A builder reads the board at a position that is not the tile it is building the state of."""
 
 
+class WrongRowCount(Undecided):
+    """A builder appends two (or more) entries for one tile in some case: the block has more states than tiles, every later
+    state is shifted."""
+
+
 class CaseEval:
     def __init__(self, sx, case, binds, m, lt, names, tile=None):
         """binds: {term: Poly} for length, width, i, j;  names: dict(moves=..., loose=...) parameter names;
@@ -644,6 +649,13 @@ class Game:
             return ce.ev(u[2][1][0])
         if u == acc:
             return None
+        # cat(cat(acc, [x1]), [x2]) ...: several appends in this case
+        n, t = 0, u
+        while t[0] == "cat" and t[2][0] == "list" and len(t[2][1]) == 1:
+            n, t = n + 1, t[1]
+        if t == acc and n >= 2:
+            raise WrongRowCount("%s block %d appends %d entries for one tile in case %s (`%s`): the block gets more states than tiles and every later state of the game is shifted" % (
+                self.func.short, block.index, n, case.name, show(u)[:100]))
         raise Undecided("%s block %d: per-tile update `%s` is not a single append" % (self.func.short, block.index, show(u)[:120]))
 
     def segments(self, key, case):
